@@ -1,6 +1,60 @@
-(* C13 — interim: executable sanity examples; the theorems are added by Gsm/*Proofs.v *)
-From Verif Require Import Base Regex Nfa Dfa.
+(* C13 — the pattern engine implements regular-expression semantics.
+   Statements only; proofs are in Gsm/{ClosureProofs,NfaProofs,DfaProofs}.v
+   about the structural model Gsm/{Regex,Nfa,Dfa}.v (tie H: differential
+   correspondence with codelimit.common.gsm on every run). *)
+From Verif Require Import Base Regex Nfa Dfa ClosureProofs NfaProofs DfaProofs.
+
+Section C13.
+  Context {P I : Type}.
+  Variable peqb : P -> P -> bool.
+  Hypothesis peqb_spec : forall p q, peqb p q = true <-> p = q.
+  Variable accepts : P -> I -> bool.
+
+  (* the non-deterministic matcher decides language membership, for any predicates *)
+  Theorem C13_nfa_match : forall (e : expr P) w, wf e = true ->
+    (exists b, nfa_match accepts e w = OK b) /\
+    (nfa_match accepts e w = OK true <-> lang accepts e w).
+  Proof. exact (C13_nfa_match accepts). Qed.
+
+  (* the deterministic matcher: full match <-> membership, never an error, for pairwise-disjoint predicates *)
+  Theorem C13_match : forall (e : expr P) w, wf e = true -> disjoint accepts (preds_seq e) ->
+    (exists b, match_ peqb (accept_st accepts) e w = OK b) /\
+    (match_ peqb (accept_st accepts) e w = OK true <-> lang accepts e w).
+  Proof. exact (C13_match peqb peqb_spec accepts). Qed.
+
+  (* prefix matching reports exactly the shortest non-empty matching prefix *)
+  Theorem C13_starts_with : forall (e : expr P) w, wf e = true -> disjoint accepts (preds_seq e) ->
+    (exists r, starts_with peqb (accept_st accepts) e w = OK r) /\
+    (forall k, starts_with peqb (accept_st accepts) e w = OK (Some k) <->
+       (1 <= k <= length w)%nat /\ lang accepts e (firstn k w) /\
+       forall j, (1 <= j < k)%nat -> ~ lang accepts e (firstn j w)).
+  Proof. exact (C13_starts_with peqb peqb_spec accepts). Qed.
+End C13.
+
+(* building a matcher terminates for every pattern: the closure's fuel always suffices,
+   also on epsilon cycles (repetitions of nullable patterns) *)
+Theorem C13_closure_total : forall P (h : heap P) l, exists v, closure h l = OK v.
+Proof. exact (@closure_total). Qed.
+Theorem C13_closure_is_reachability : forall P (h : heap P) l v, closure h l = OK v ->
+  (forall a, In a v <-> exists s, In s l /\ eps_reach h s a) /\ sorted v.
+Proof. exact (@closure_spec). Qed.
+Theorem C13_build_total : forall P (e : expr P), wf e = true -> exists h s a, expression_to_nfa e = OK (h, (s, a)).
+Proof. exact (@build_total). Qed.
+Theorem C13_build_dfa_total : forall P (e : expr P), wf e = true -> exists a, to_dfa e = OK a.
+Proof. exact (@C13_build_dfa_total). Qed.
+
+Print Assumptions C13_nfa_match.
+Print Assumptions C13_match.
+Print Assumptions C13_starts_with.
+Print Assumptions C13_closure_total.
+Print Assumptions C13_closure_is_reachability.
+Print Assumptions C13_build_total.
+Print Assumptions C13_build_dfa_total.
+
+(* non-vacuity: a well-formed pattern with a repetition of a nullable pattern, over disjoint Identity atoms *)
 Open Scope Z_scope.
-Example C13_ex_star_opt_terminates :
-  match_ id_peqb id_accept_st [Star [Opt [Atom 1]]] [1; 1] = OK true.
-Proof. vm_compute. reflexivity. Qed.
+Example C13_example :
+  wf [Atom 1; Star [Opt [Atom 2]]; Plus [Union [Atom 3] [Atom 1; Atom 2]]] = true /\
+  match_ id_peqb id_accept_st [Atom 1; Star [Opt [Atom 2]]; Plus [Union [Atom 3] [Atom 1; Atom 2]]] [1; 2; 2; 1; 2; 3] = OK true /\
+  starts_with id_peqb id_accept_st [Atom 1; Star [Opt [Atom 2]]; Plus [Union [Atom 3] [Atom 1; Atom 2]]] [1; 2; 3; 3] = OK (Some 3%nat).
+Proof. vm_compute. repeat split. Qed.
